@@ -4,16 +4,12 @@ package main
 import (
 	"context"
 	"fmt"
-	"strings"
 	"sync"
 	"time"
-
-	mcp "trpc.group/trpc-go/trpc-mcp-go"
 
 	"verifharness/lib/gen"
 	"verifharness/lib/kit"
 	"verifharness/lib/vh"
-	"verifharness/lib/wire"
 )
 
 func kindClass(kind kit.Kind) string { return string(kind) }
@@ -53,7 +49,7 @@ func runKind(r *vh.Run, kind kit.Kind, level int) {
 			r.Distinct(fmt.Sprintf("%s|%s|%s", kind, rq.Label, o.Class))
 		}
 		r.SetAdd("answer_classes", o.Class)
-		if rq.Label == "valid|tools/call|echo" || rq.Label == "valid|unknown-method" {
+		if kind == kit.SSSE && (rq.Label == "valid|tools/call|echo" || rq.Label == "valid|unknown-method") {
 			r.Sample(map[string]interface{}{"kind": kind, "label": rq.Label, "request": string(rq.Body), "status": o.Status, "frames": o.Frames})
 		}
 	}
@@ -75,73 +71,6 @@ func boundedS(s string) string {
 	return s
 }
 
-// serverInitiated checks the frames a server writes on its own initiative: in-call notifications on a POST SSE
-// stream, notifications and requests on the listening stream / legacy stream.
-func serverInitiated(r *vh.Run) {
-	ctx, cancel := context.WithTimeout(context.Background(), 60*time.Second)
-	defer cancel()
-	// POST-SSE notifications
-	for _, kind := range []kit.Kind{kit.SSSE, kit.SLSSE} {
-		in := kit.Start(kind, kit.Opts{})
-		kit.StdFixture(in)
-		c, _ := in.Dial(ctx)
-		if err := c.Handshake(ctx); err == nil {
-			ex := c.Post(ctx, []byte(`{"jsonrpc":"2.0","id":501,"method":"tools/call","params":{"name":"notify","arguments":{"nonce":"c03n","n":9}}}`), kit.PostOpts{})
-			nn := 0
-			for _, f := range ex.Frames {
-				m := wire.Parse(f)
-				r.Eval(1)
-				r.Count("frames_validated", 1)
-				if len(m.Problem) > 0 {
-					r.Violation(fmt.Sprintf("C03|in-call-notification|%s|malformed-frame", kind), fmt.Sprintf("%s: frame on POST SSE stream: %v", kind, m.Problem), f)
-				}
-				if m.Kind == "notification" {
-					nn++
-				}
-			}
-			if nn == 9 {
-				r.Distinct(fmt.Sprintf("%s|in-call-notifications", kind))
-			} else {
-				r.Note(fmt.Sprintf("%s: %d of 9 in-call notifications seen on the POST stream", kind, nn))
-			}
-		}
-		c.Close()
-		in.Close()
-	}
-	// listening stream (Streamable) and legacy stream: server.SendNotification + server-issued request
-	{
-		in := kit.Start(kit.SSSE, kit.Opts{})
-		kit.StdFixture(in)
-		c, _ := in.Dial(ctx)
-		if err := c.Handshake(ctx); err == nil {
-			if _, err := c.OpenGet(ctx); err == nil {
-				time.Sleep(50 * time.Millisecond)
-				from := c.Log.Len()
-				_ = in.Server.SendNotification(c.SessionID, "notifications/verif", map[string]interface{}{"a": 1, "_meta": map[string]interface{}{"m": true}})
-				_ = in.Server.SendNotification(c.SessionID, "notifications/empty", nil)
-				go func() {
-					rctx, rc := context.WithTimeout(ctx, 300*time.Millisecond)
-					defer rc()
-					in.Server.SendRequest(rctx, c.SessionID, newReq("roots/list"))
-				}()
-				c.Log.WaitFor(from, 5*time.Second, func(f kit.Frame) bool { return strings.Contains(f.Data, "roots/list") })
-				for _, f := range c.Log.Since(from) {
-					m := wire.Parse(f.Data)
-					r.Eval(1)
-					r.Count("frames_validated", 1)
-					if len(m.Problem) > 0 {
-						r.Violation("C03|listening-stream|S-sse|malformed-frame", fmt.Sprintf("frame on GET stream: %v", m.Problem), f)
-					} else {
-						r.Distinct("S-sse|listening-stream|" + m.Kind)
-					}
-				}
-			}
-		}
-		c.Close()
-		in.Close()
-	}
-}
-
 func main() {
 	kit.MaybeServeStdioChild()
 	kit.Silence()
@@ -159,14 +88,10 @@ func main() {
 	}
 	wg.Wait()
 	serverInitiated(r)
-	r.Finish("per server configuration: every valid request of the standard fixture, then structural mutations (params and each parameter removed / retyped to every JSON type / extra / duplicated; envelope members removed / retyped / duplicated; notifications; responses never asked for; non-object and unparsable bodies; deep and large values; HTTP-level wrong path / verb / headers / session id; thorough adds truncation at every offset, bit flips, random bytes) x handler outcomes {value, error, unencodable, isError, nil content}; every frame written back is validated by the hand-written JSON-RPC/MCP oracle and the answer class compared with the reference classifier. A second sweep repeats the handshake, every list method and read/get/call on registries other than the standard fixture (nothing registered, tools registered and all unregistered again, only a template, one bare tool / prompt / resource with every optional member left out, the standard fixture filtered down to an empty and to a nil list). Distinct = (configuration, [registry,] request class, answer class) that conformed.",
+	r.Finish("per server configuration: every valid request of the standard fixture, then structural mutations (params and each parameter removed / retyped to every JSON type / extra / duplicated; envelope members removed / retyped / duplicated; notifications; responses never asked for; non-object and unparsable bodies; deep and large values; HTTP-level wrong path / verb / headers / session id; thorough adds truncation at every offset, bit flips, random bytes) x handler outcomes {value, error, unencodable, isError, nil content}; every frame written back is validated by the hand-written JSON-RPC/MCP oracle and the answer class compared with the reference classifier. A second sweep repeats the handshake, every list method and read/get/call on registries other than the standard fixture (nothing registered, tools registered and all unregistered again, only a template, one bare tool / prompt / resource with every optional member left out, the standard fixture filtered down to an empty and to a nil list). A third sweep (initiated.go) judges every frame a server writes on its own initiative: on stateful Streamable servers the listening stream opened fresh, resumed with the last event id seen after the previous stream was closed, superseding an open stream with and without Last-Event-ID, resumed with event ids never issued (odd header values; thorough: a random walk over these), each with every sender API driven against it (Server.SendNotification / BroadcastNotification / SendFilteredNotification with nil, empty, flat, nested, _meta-carrying and seeded random params; Server.SendRequest with generated, numeric and string ids, without and with object / array params; ListRoots, SendNotification and SendRequest from a tool handler and from a notification handler; registrations changing while the stream is open) plus whatever the server writes there by itself (the resumption notice); the POST event stream with every in-call sender method on stateful, stateless and session-less servers; the legacy SSE session stream (endpoint event and keep-alive comments skipped, every other event judged) with SSEServer.SendNotification / SendRequest / ListRoots / the session's notification channel; every stdout line of the stdio server with StdioServer.SendRequest / ListRoots / the session's notification and message channels. Distinct = (configuration, [registry,] request class, answer class) that conformed, and for the third sweep (configuration, stream kind, origin API, frame kind) of frames that conformed; a run that saw no frame on a resumed listening stream is a harness error, one that saw only API frames there is inconclusive.",
 		[]string{"the hand-written validators in lib/wire are the trusted base (the official schema file is not in the sandbox)",
 			"where the statement fixes no code (unknown tool/prompt/resource) -32601 and -32602 are both accepted; ignorable optional parameters may be served or refused",
-			"a missing answer on stdio / legacy SSE is confirmed by a second post with a 3 s wait before it counts"})
-}
-
-func newReq(method string) *mcp.JSONRPCRequest {
-	rq := &mcp.JSONRPCRequest{JSONRPC: "2.0"}
-	rq.Method = method
-	return rq
+			"a missing answer on stdio / legacy SSE is confirmed by a second post with a 3 s wait before it counts",
+			"server-initiated frames are attributed to the API call that caused them by a method name unique to the call; a frame that never shows up is counted (initiated_frames_expected vs _seen), not reported: delivery is not C03's subject",
+			"request params are handed to SendRequest as an untyped nil, an object or an array; a typed nil map inside the interface (encoded as \"params\":null) is treated as a caller error and not exercised"})
 }
